@@ -561,7 +561,8 @@ class HTMLBinaryInputStream(HTMLUnicodeInputStream):
         # Set the read position past the BOM if one was found, otherwise
         # set it to the start of the stream
         if encoding:
-            self.rawStream.seek(seek)
+            # A short stream can match a probe longer than the BOM it holds
+            self.rawStream.seek(min(seek, len(string)))
             return lookupEncoding(encoding)
         else:
             self.rawStream.seek(0)
